@@ -534,14 +534,21 @@ _getopt_uw = "getopt_long.0:17,getopt_long.1:33"
 P["C20"] = {"property": "C20", "level": "proof", "units": [
     U("C20.jwt_verify.main", "main (tools/jwt-verify.c) with process_one", "tools/jwt-verify.c", "contracts/tools_c.h",
       "int argc; char **argv; tool_main(argc, argv);", "tool_main/contract_C20_jwt_verify_main",
-      stubs=TOOLS_STUBS, defines=["main=tool_main"], flags=[], unwindset=_getopt_uw,
+      stubs=TOOLS_STUBS, defines=["main=tool_main"], flags=[], enum_consts=["JWT_ALG_INVAL"],
       loops={"tool_main": [
-        {"loop_id": 0, "vars": ["oc", "alg", "quiet", "verbose", "key_file"],
-         "assigns": "oc, alg, quiet, verbose, key_file, pipe_cmd, optind, optarg, g_getopt_calls",
-         "invariants": ["g_tok_calls == 0 && g_tok_bad == 0"], "decreases": "1000 - g_getopt_calls",
-         "globals": {"pipe_cmd": "pipe_cmd", "optind": "optind", "optarg": "optarg", "g_getopt_calls": "g_getopt_calls", "g_tok_calls": "g_tok_calls", "g_tok_bad": "g_tok_bad"}},
+        {"loop_id": 0, "vars": ["alg"], "assigns": "alg", "invariants": ["(unsigned)alg <= JWT_ALG_INVAL"], "decreases": "(int)JWT_ALG_INVAL - (int)alg"},
+        {"loop_id": 1, "vars": ["oc", "alg", "quiet", "verbose", "key_file"],
+         "assigns": "oc, alg, quiet, verbose, key_file, pipe_cmd, optind, optarg, g_getopt_calls, g_exit_status8",
+         "invariants": ["g_tok_calls == 0 && g_tok_bad == 0"], "globals": {"pipe_cmd": "pipe_cmd", "optind": "optind", "optarg": "optarg", "g_getopt_calls": "g_getopt_calls", "g_tok_calls": "g_tok_calls", "g_tok_bad": "g_tok_bad", "g_tok_last": "g_tok_last", "g_exit_status8": "g_exit_status8"}},
+        {"loop_id": 2, "vars": ["err", "token"],
+         "assigns": "err, __CPROVER_object_whole(token), g_tok_calls, g_tok_bad, g_tok_last",
+         "invariants": ["0 <= err && err <= 255", "(err == 0) == (g_tok_bad == 0)", "g_tok_bad <= g_tok_calls"], "globals": {"pipe_cmd": "pipe_cmd", "optind": "optind", "optarg": "optarg", "g_getopt_calls": "g_getopt_calls", "g_tok_calls": "g_tok_calls", "g_tok_bad": "g_tok_bad", "g_tok_last": "g_tok_last", "g_exit_status8": "g_exit_status8"}},
+        {"loop_id": 3, "vars": ["err", "oc", "argc"],
+         "assigns": "err, oc, g_tok_calls, g_tok_bad, g_tok_last",
+         "invariants": ["0 <= oc && oc <= argc", "0 <= err && err <= 255", "(err == 0) == (g_tok_bad == 0)", "g_tok_bad <= g_tok_calls", "(oc > 0) == (g_tok_calls > 0)"], "decreases": "argc - oc", "globals": {"pipe_cmd": "pipe_cmd", "optind": "optind", "optarg": "optarg", "g_getopt_calls": "g_getopt_calls", "g_tok_calls": "g_tok_calls", "g_tok_bad": "g_tok_bad", "g_tok_last": "g_tok_last", "g_exit_status8": "g_exit_status8"}},
       ]},
-      expect=["exit\\.assertion\\.1", "exit\\.assertion\\.2", "getopt_long\\.assertion\\.2", "getopt_long\\.assertion\\.3", "tool_main\\.loop_invariant_step"], timeout=600),
+      expect=["exit\\.assertion\\.1", "exit\\.assertion\\.2", "getopt_long\\.assertion\\.2", "getopt_long\\.assertion\\.3", "find_short\\.assertion\\.1", "tool_main\\.loop_invariant_step"], timeout=600,
+      replay={"driver": "replay/r_C20_verify.c"}),
 ]}
 
 for _f in ("openssl_process_rsa", "openssl_process_ec", "openssl_process_eddsa"):
